@@ -51,3 +51,59 @@ Proof.
   - now rewrite L1, L2.
 Qed.
 Print Assumptions C19_hqwt_any_table.
+
+(* ---- the remaining families (Proofs/GapsP.v): binary trees, rank/select bit vectors, DArray,
+   quad vector: values built from different inputs are different values, element width and
+   (for Huffman-shaped trees) the code table do not change any answer *)
+From QwtModel Require Import Words BitVec RSBin DArrayM BinWTP GapsP.
+
+Theorem C19_wt_injective : forall w s1 s2 t, BinWTP.width_ok w ->
+  Forall (fun x => x < 2 ^ w) s1 -> Forall (fun x => x < 2 ^ w) s2 -> len s1 < RSQ_MAXN -> len s2 < RSQ_MAXN ->
+  wt_build w false s1 [] = Val t -> wt_build w false s2 [] = Val t -> s1 = s2.
+Proof. exact wt_new_inj. Qed.
+Print Assumptions C19_wt_injective.
+Theorem C19_hwt_injective : forall w s1 s2 tab t, BinWTP.width_ok w ->
+  Forall (fun x => x < 2 ^ w) s1 -> Forall (fun x => x < 2 ^ w) s2 -> len s1 < RSQ_MAXN -> len s2 < RSQ_MAXN ->
+  table_ok2 s1 tab -> table_ok2 s2 tab ->
+  wt_build w true s1 tab = Val t -> wt_build w true s2 tab = Val t -> s1 = s2.
+Proof. exact hwt_build_inj. Qed.
+Print Assumptions C19_hwt_injective.
+Theorem C19_wt_width_independent : forall w1 w2 seq t1 t2,
+  BinWTP.width_ok w1 -> BinWTP.width_ok w2 ->
+  Forall (fun x => x < 2 ^ w1) seq -> Forall (fun x => x < 2 ^ w2) seq -> len seq < RSQ_MAXN ->
+  wt_build w1 false seq [] = Val t1 -> wt_build w2 false seq [] = Val t2 ->
+  (forall i, wt_get w1 false t1 i = wt_get w2 false t2 i) /\
+  (forall c i, c < 2 ^ w1 -> c < 2 ^ w2 -> wt_rank w1 false t1 c i = wt_rank w2 false t2 c i) /\
+  (forall c k, c < 2 ^ w1 -> c < 2 ^ w2 -> k < 2 ^ 64 -> wt_select w1 false t1 c k = wt_select w2 false t2 c k).
+Proof. exact wt_width_independent. Qed.
+Print Assumptions C19_wt_width_independent.
+Theorem C19_hwt_any_table : forall w seq tab1 tab2 t1 t2, BinWTP.width_ok w ->
+  Forall (fun x => x < 2 ^ w) seq -> len seq < RSQ_MAXN -> table_ok2 seq tab1 -> table_ok2 seq tab2 ->
+  wt_build w true seq tab1 = Val t1 -> wt_build w true seq tab2 = Val t2 ->
+  (forall i, wt_get w true t1 i = wt_get w true t2 i) /\
+  (forall c i, c < 2 ^ w -> wt_rank w true t1 c i = wt_rank w true t2 c i) /\
+  (forall c k, c < 2 ^ w -> k < 2 ^ 64 -> wt_select w true t1 c k = wt_select w true t2 c k).
+Proof. exact hwt_any_table. Qed.
+Print Assumptions C19_hwt_any_table.
+Theorem C19_rsnarrow_injective : forall b1 b2 bv1 bv2 r, len b1 < 2 ^ 43 -> len b2 < 2 ^ 43 ->
+  bv_from_bools b1 = Val bv1 -> bv_from_bools b2 = Val bv2 ->
+  rsn_new bv1 = Val r -> rsn_new bv2 = Val r -> b1 = b2.
+Proof. exact rsn_inj. Qed.
+Print Assumptions C19_rsnarrow_injective.
+Theorem C19_rswide_injective : forall b1 b2 bv1 bv2 r, len b1 < 2 ^ 43 -> len b2 < 2 ^ 43 ->
+  bv_from_bools b1 = Val bv1 -> bv_from_bools b2 = Val bv2 ->
+  rsw_new bv1 = Val r -> rsw_new bv2 = Val r -> b1 = b2.
+Proof. exact rsw_inj. Qed.
+Print Assumptions C19_rswide_injective.
+Theorem C19_darray_injective : forall s0 s0' b1 b2 d, len b1 < 2 ^ 63 -> len b2 < 2 ^ 63 ->
+  da_from_bools s0 b1 = Val d -> da_from_bools s0' b2 = Val d -> b1 = b2.
+Proof. exact da_from_bools_inj. Qed.
+Print Assumptions C19_darray_injective.
+Theorem C19_qvector_injective : forall v1 v2 q,
+  qv_from_iter v1 = Val q -> qv_from_iter v2 = Val q -> stored v1 = stored v2.
+Proof. exact qv_from_iter_inj. Qed.
+Print Assumptions C19_qvector_injective.
+(* non-vacuity: two concrete sequences build different trees *)
+Theorem C19_example : gap_ex_plain_b = true.
+Proof. exact wt_differ_ex. Qed.
+Print Assumptions C19_example.
